@@ -71,3 +71,20 @@ func init() {
 		Assumptions: commonAssumptions, MinEvals: 3000000,
 		MinCounters: map[string]int64{"expect_success_Int64": 50000, "expect_error_Int64": 50000, "expect_success_Uint32": 10000, "expect_error_Uint64": 50000}})
 }
+
+func init() {
+	register(&Spec{ID: "C06", Run: RunC06,
+		Rule:        "inputs: W7 (all 65,536 \\uXXXX units in 3 hex spellings and 3 shapes; every high surrogate x 15 partners, every low x 6, a (high,low) grid; every byte value replaced/inserted/appended at every position of 12 string templates in 12 contexts; generated strings), the W1 sweep of top-level tokens and W5 long strings; each through ReadStringBytes (nil and destinations of capacities 0..need+4), ReadString (nil / dirty scratch), DecodeString and UnescapeStringContent on the content span; distinct by hash; non-trivial = contains a backslash, a byte >= 0x80 or a control byte",
+		Assumptions: commonAssumptions, MinEvals: 5000000,
+		MinCounters: map[string]int64{"wellformed_tokens": 300000, "malformed_tokens": 300000, "tokens_with_unicode_escapes": 150000, "growth_boundary_calls": 1000000}})
+	register(&Spec{ID: "C12", Run: RunC12,
+		Rule:        "inputs: the literals null/true/false with every one-byte replacement, insertion and truncation in 36 contexts, the W1 sweep of top-level tokens, W6 integer and float literals, generated strings; each through all nine Decode* functions (DecodeString with and without scratch) with two different sentinel target values; expected outcome derived from the corresponding Read* result and an independent null-prefix test; distinct by hash; non-trivial = input is not empty/all-whitespace",
+		Assumptions: append([]string{"the reader half of the relation is the real Read* function (C04/C05/C06/C13 decide whether that is right)"}, commonAssumptions...),
+		MinEvals:    5000000,
+		MinCounters: map[string]int64{"outcome_value_stored": 200000, "outcome_null_target_untouched": 20000, "outcome_error_target_untouched": 1000000}})
+	register(&Spec{ID: "C13", Run: RunC13,
+		Rule:        "inputs: EXHAUSTIVE table part = all 85 whitespace prefixes of length <= 3 over {SP,HT,CR,LF} x all 256 next bytes x 4 suffixes; every one-byte replacement/insertion/truncation of null/true/false in 36 contexts; non-JSON whitespace before tokens; the W1 sweep, W3 documents and random token soups for exclusivity; distinct by hash; non-trivial = non-empty input",
+		Assumptions: commonAssumptions, MinEvals: 5000000,
+		Exhaustive:  "token table: every whitespace prefix of length <= 3 x every byte value (85 x 256 x 4 inputs) is enumerated completely",
+		MinCounters: map[string]int64{"end_of_input_cases": 85, "literal_null_accepted": 1000, "literal_true_accepted": 1000, "literal_false_accepted": 1000, "typed_read_successes": 500000}})
+}
